@@ -340,14 +340,14 @@ func init() {
 }
 
 var componentsA = map[string]string{
-	"git-sizer CLI (pflag parsing, refopts, sizes.Graph, path resolver, output, meter, parsers)": "real code, current /repo tree, in-process (engine A; language version go1.23 forced by the harness module)",
+	"git-sizer CLI (pflag parsing, refopts, sizes.Graph, path resolver, output, meter, parsers)": "real code, current /repo tree, in-process (engine A; language version go1.23 forced by the harness module); packages main, sizes, git, meter, internal/refopts are compiled from generated copies in which a call yieldpt.P(n) precedes every mutex Lock/RLock, channel send/receive and select and follows every go statement (no other difference; /repo itself is untouched; the real binary of engine B is built from the files as they are)",
 	"go-pipe Pipeline / Function stages / Wait() error ranking":                                  "real (vendored copy of v1.0.2 with one added seam in CommandStage)",
 	"go-pipe commandStage (exec, stderr capture)":                                                "stub for the four streaming commands (in-process peer, simulated pipe, genuine *exec.ExitError values)",
 	"git rev-list / cat-file --batch-check / cat-file --batch / for-each-ref":                    "stub (SimGit peers over the world model); real git in conformance cross-runs",
 	"git rev-parse / git config (one-shot)":                                                      "real git 2.39.5 on the materialised repository",
 	"clock":                                                                                      "testing/synctest fake clock",
 	"pipes":                                                                                      "in-memory, capacity / chunking / short reads from the plan",
-	"goroutine scheduling":                                                                       "Go runtime at GOMAXPROCS=1; peer event order decided by the plan's fake-time delays",
+	"goroutine scheduling":                                                                       "Go runtime at GOMAXPROCS=1; peer event order decided by the plan's fake-time delays; which of git-sizer's own goroutines proceeds at each lock / channel operation / goroutine start decided by the plan's Gosched counts at the inserted yield points (one plan in three, and 8 schedules per C17 evaluation)",
 }
 
 // additiveGraft returns a graft line that keeps the real parents of one
